@@ -13,6 +13,7 @@ From PV Require Export Model.TransformX.
 From PV Require Export Model.DecompX.
 From PV Require Export Model.SourceX.
 From PV Require Export Model.LossX.
+From PV Require Model.SamplingX.   (* C09; qualified (step, run, init, ... stay out of the way) *)
 
 Definition dispatch (f : Z) (x : sx) : sx :=
   match f with
@@ -43,5 +44,8 @@ Definition dispatch (f : Z) (x : sx) : sx :=
   | 600 => x_get_probs x | 601 => x_one_photon x | 602 => x_prob_dist x | 603 => x_generate x | 604 => x_prob_table x
   | 605 => x_from_noise x | 606 => x_generate_filtered x | 607 => x_event_law x
   | 1003 => ConnectorX.x_conn_run_old x
+  | 900 => SamplingX.x_pipeline x | 901 => SamplingX.x_loop x | 902 => SamplingX.x_sim x | 903 => SamplingX.x_repair x
+  | 904 => SamplingX.x_pyround x | 905 => SamplingX.x_hist x | 906 => SamplingX.x_samples_conv x
+  | 907 => SamplingX.x_count_to_probs x
   | _ => L []
   end%Z.
